@@ -162,6 +162,8 @@ def main_check(pid, tier, seed):
     if agg['states']:
         cov['states'] = len(agg['states'])
         cov['transitions'] = agg['transitions']
+    if mod.LEVEL == 'model_checking':
+        cov['traces_validated_against_impl'] = agg['evaluations']
     if getattr(mod, 'EXHAUSTIVE', {}).get(tier):
         cov['exhaustive'] = True
         cov['exhaustive_scope'] = mod.EXHAUSTIVE[tier]
